@@ -1131,10 +1131,17 @@ func writeManifest(r registry) {
 		"engines":        engs,
 		"checks":         checks,
 		"not_applicable": na,
-		"notes":          "Every check is `./check <ID> quick|thorough`; it rebuilds the harness test binary from /repo's working tree, explores, rewrites evidence/<ID>.json and prints VIOLATION / KNOWN-FINDING lines. Known findings are matched by signature against known_findings.jsonl. See DESIGN.md.",
+		"notes":          "Every check is `./check <ID> quick|thorough`; it rebuilds the harness test binary from /repo's working tree, explores, rewrites evidence/<ID>.json and prints VIOLATION / KNOWN-FINDING lines. Known findings are matched by signature against known_findings.txt. See DESIGN.md.",
 	}
 	b, _ := json.MarshalIndent(m, "", " ")
-	if err := os.WriteFile(filepath.Join(verifDir, "MANIFEST.json"), append(b, '\n'), 0o644); err != nil {
+	// written to a temporary file and renamed: several agents may regenerate
+	// the manifest at the same time and a reader must never see a torn file
+	tmp := filepath.Join(verifDir, fmt.Sprintf(".MANIFEST.json.%d", os.Getpid()))
+	err := os.WriteFile(tmp, append(b, '\n'), 0o644)
+	if err == nil {
+		err = os.Rename(tmp, filepath.Join(verifDir, "MANIFEST.json"))
+	}
+	if err != nil {
 		die(2, "manifest: %v", err)
 	}
 }
